@@ -93,6 +93,17 @@ theorem writer_preconditions_met :
   unfold secOf at h1
   omega
 
+/-- **no call is ignored**: every `Write` the aggregator issues passes the writer's `timeSec < latestOpSec → ignore` test
+    (`Accepted`: checked against the writer state at the moment of each call) — nothing the aggregator hands over is dropped
+    silently by the writer -/
+theorem every_write_accepted :
+    Accepted (Writer.new T0 maxSize maxFiles) (run (St.new n L T0 maxSize maxFiles) evs).written := by
+  obtain ⟨_, hs, hb⟩ := writer_preconditions_met n L T0 maxSize maxFiles hn hL hd hT0 evs mono ok
+  apply accepted_of_sorted _ _ _ hs
+  intro p hp
+  have := (hb p hp).1
+  simpa [Writer.new] using this
+
 /-- every item handed to the writer is the reference item of its own (resource, second) -/
 theorem written_item_is_ref (it : Item) (hit : it ∈ allItems (run (St.new n L T0 maxSize maxFiles) evs).written) :
     it = refItem (run (St.new n L T0 maxSize maxFiles) evs).nodes evs it.res it.ts ∧
@@ -167,5 +178,159 @@ theorem end_to_end (hT : T0 / 1000 < 2 ^ 64)
   exact ⟨h1, h2, hx2.1, hx2.2⟩
 
 end main
+
+/-! ## "in the aggregate that first covers it, never again" -/
+
+theorem run_append (s : St) (a b : List Agg.Ev) : run s (a ++ b) = run (run s a) b := by
+  simp [run, List.foldl_append]
+
+theorem step_written_grows (s : St) (ev : Agg.Ev) : ∃ bs, (step s ev).written = s.written ++ bs := by
+  cases ev with
+  | rcd t res cls x => exact ⟨[], by simp [step, record]⟩
+  | tick t =>
+    unfold step aggregate
+    dsimp only
+    split_ifs
+    · exact ⟨[], by simp⟩
+    · exact ⟨_, rfl⟩
+
+theorem run_written_grows (s : St) (evs : List Agg.Ev) : ∃ bs, (run s evs).written = s.written ++ bs := by
+  induction evs generalizing s with
+  | nil => exact ⟨[], by simp [run]⟩
+  | cons ev r ih =>
+    obtain ⟨b1, h1⟩ := step_written_grows s ev
+    obtain ⟨b2, h2⟩ := ih (step s ev)
+    exact ⟨b1 ++ b2, by rw [run_cons, h2, h1, List.append_assoc]⟩
+
+theorem monoEv_prefix (now : Nat) (a b : List Agg.Ev) (h : MonoEv now (a ++ b)) : MonoEv now a := by
+  induction a generalizing now with
+  | nil => trivial
+  | cons e r ih => exact ⟨h.1, ih e.time h.2⟩
+
+theorem ticksOK_prefix (n L T0 : Nat) (s : St) (a b : List Agg.Ev) (h : TicksOK n L T0 s (a ++ b)) : TicksOK n L T0 s a := by
+  induction a generalizing s with
+  | nil => trivial
+  | cons e r ih => exact ⟨h.1, ih (step s e) h.2⟩
+
+/-- **once, in the aggregate that first covers it, never again**: the hypotheses are closed under prefixes, so
+    `each_second_logged_once` holds after every prefix `pre` of the history — the item of an active `(res, sec)` is in the log as
+    soon as some tick of `pre` has moved `lastFetch` beyond `sec` —, the list of `Write` calls only ever grows by appending
+    (`written` of the prefix is a prefix of the final one), and by `writer_preconditions_met` its seconds increase strictly: no
+    later aggregate hands second `sec` over again. -/
+theorem logged_by_first_covering_tick (n L T0 maxSize maxFiles : Nat) (pre post : List Agg.Ev)
+    (mono : MonoEv T0 (pre ++ post)) (ok : TicksOK n L T0 (St.new n L T0 maxSize maxFiles) (pre ++ post)) :
+    MonoEv T0 pre ∧ TicksOK n L T0 (St.new n L T0 maxSize maxFiles) pre ∧
+    (run (St.new n L T0 maxSize maxFiles) pre).written <+: (run (St.new n L T0 maxSize maxFiles) (pre ++ post)).written := by
+  refine ⟨monoEv_prefix T0 pre post mono, ticksOK_prefix n L T0 _ pre post ok, ?_⟩
+  rw [run_append]
+  obtain ⟨bs, h⟩ := run_written_grows (run (St.new n L T0 maxSize maxFiles) pre) post
+  exact ⟨bs, h.symm⟩
+
+/-! ## the bound in terms of the distance between ticks -/
+
+/-- consecutive ticks are at most `g` ms apart, the first one at most `g` ms after `prev` -/
+def TickGap (g : Nat) : Nat → List Agg.Ev → Prop
+  | _, [] => True
+  | prev, .tick t :: r => t ≤ prev + g ∧ TickGap g t r
+  | prev, .rcd _ _ _ _ :: r => TickGap g prev r
+
+theorem ticksOK_of_gap_aux (n L T0 : Nat) (hnl : 1000 ≤ n * L) (s : St) (prev : Nat) (evs : List Agg.Ev)
+    (hprev : prev < max (s.lastFetch.getD 0) (secOf T0) + 1000) (gap : TickGap (n * L - 1000) prev evs) :
+    TicksOK n L T0 s evs := by
+  induction evs generalizing s prev with
+  | nil => trivial
+  | cons ev r ih =>
+    cases ev with
+    | rcd t res cls x => exact ⟨trivial, ih (step s (.rcd t res cls x)) prev hprev gap⟩
+    | tick t =>
+      obtain ⟨hg, hrest⟩ := gap
+      refine ⟨Or.inr (by omega), ih _ t ?_ hrest⟩
+      show t < max ((aggregate s t).1.lastFetch.getD 0) (secOf T0) + 1000
+      have ht : t < secOf t + 1000 := by unfold secOf; omega
+      unfold aggregate
+      dsimp only
+      split_ifs with hsk
+      · cases hlf : s.lastFetch with
+        | none => rw [hlf] at hsk; simp [skips] at hsk
+        | some f =>
+          rw [hlf] at hsk
+          simp only [skips, decide_eq_true_eq] at hsk
+          simp only [Option.getD_some]
+          have := le_max_left f (secOf T0)
+          omega
+      · simp only [Option.getD_some]
+        have := le_max_left (secOf t) (secOf T0)
+        omega
+
+/-- **the bound, as a distance between ticks**: if the array interval is at least one second, the first tick comes at most
+    `n·L − 1000` ms after the start and consecutive ticks are at most `n·L − 1000` ms apart (library default: 9 s; the ticker of
+    `InitTask` fires every `flushIntervalSec` = 1 s), every tick finds its fetch window inside the arrays. -/
+theorem ticksOK_of_gap (n L T0 maxSize maxFiles : Nat) (hnl : 1000 ≤ n * L) (evs : List Agg.Ev)
+    (gap : TickGap (n * L - 1000) T0 evs) : TicksOK n L T0 (St.new n L T0 maxSize maxFiles) evs := by
+  apply ticksOK_of_gap_aux n L T0 hnl _ T0 evs _ gap
+  have : T0 < secOf T0 + 1000 := by unfold secOf; omega
+  have := le_max_right ((St.new n L T0 maxSize maxFiles).lastFetch.getD 0) (secOf T0)
+  omega
+
+/-! ## witnesses (`decide` on the model the driver runs) -/
+
+def wa : Bytes := [97]
+
+/-- array `4 × 500 ms` (interval 2 s) created at 1000: a pass at 1000, three passes at 2100, a tick at 2999, one more pass at
+    4000 **and then** the tick at 4000 — `1001 = n·L − 999` ms after the previous one -/
+def lossHist : List Agg.Ev :=
+  [.rcd 1000 wa 0 (evBucket .pass 1), .rcd 2100 wa 0 (evBucket .pass 3), .tick 2999,
+   .rcd 4000 wa 0 (evBucket .pass 1), .tick 4000]
+
+/-- **the bound is tight**: with ticks `n·L − 999` ms apart (`t = lastFetch + n·L`) the recording at 4000 has already recycled
+    the slot of bucket 2000 when the fetch window `[2000, 4000)` is read: second 2000 was active (3 passes), lies strictly before
+    the latest fetch, and is **never logged**.  One millisecond earlier (`ticksOK_of_gap`) nothing can be lost. -/
+theorem gap_bound_tight_witness :
+    (run (St.new 4 500 1000 100000 3) lossHist).lastFetch = some 4000 ∧
+    active (secRef (eventsOf wa lossHist) 2000) = true ∧
+    (allItems (run (St.new 4 500 1000 100000 3) lossHist).written).filter
+      (fun it => decide (it.ts = 2000) && decide (it.res = wa)) = [] ∧
+    ¬ (4000 < max 2000 (secOf 1000) + 4 * 500) := by decide
+
+/-- the same history with the second tick at 3999 (`n·L − 1000` ms after the previous one) logs second 2000 -/
+theorem gap_bound_ok_example :
+    ((allItems (run (St.new 4 500 1000 100000 3)
+        [.rcd 1000 wa 0 (evBucket .pass 1), .rcd 2100 wa 0 (evBucket .pass 3), .tick 2999, .tick 3999]).written).filter
+      (fun it => decide (it.ts = 2000) && decide (it.res = wa))).map (·.pass) = [3] := by decide
+
+/-- C08's known finding `items-boundary-bucket` **cannot surface** under `TicksOK` (the bucket one whole interval old starts
+    before `lastFetch`, the time predicate excludes it: `each_second_logged_once` holds with the plain reference); beyond the
+    bound it surfaces *in the aggregator's favour*: a tick exactly at `lastFetch + n·L` with the current bucket untouched still
+    receives the bucket that the array-wide aligned window has already dropped -/
+theorem boundary_bucket_rescues_example :
+    ((allItems (run (St.new 4 500 1000 100000 3)
+        [.rcd 1000 wa 0 (evBucket .pass 1), .rcd 2100 wa 0 (evBucket .pass 3), .tick 2999, .tick 4000]).written).filter
+      (fun it => decide (it.ts = 2000) && decide (it.res = wa))).map (·.pass) = [3] := by decide
+
+/-- buckets that do not tile the second (`16 × 625 ms`): the bucket `[625, 1250)` is labelled second 0 and is fetched by the tick
+    at 1000 while it is still filling; the two passes recorded at 1100 land in it afterwards and are **never logged** (the next
+    window starts at 1000).  Hence the hypothesis `L ∣ 1000`. -/
+theorem nonaligned_bucket_witness :
+    let h : List Agg.Ev := [.rcd 700 wa 0 (evBucket .pass 1), .tick 1000, .rcd 1100 wa 0 (evBucket .pass 2), .tick 2000, .tick 3000]
+    ((allItems (run (St.new 16 625 700 100000 3) h).written).map fun it => (it.ts, it.pass)) = [(0, 1)] ∧
+    active (secRef (eventsOf wa h) 1000) = true := by decide
+
+/-- **`metriclog-first-second` bites end to end**: the writer is created at 1000200 (second 1000000); traffic in the rest of
+    that second is handed to the writer by the first tick (window `[−1, curSec)`) under the creation second itself, gets no index
+    entry, and a query from that second on returns only the later second although both items are in the retained file -/
+theorem first_second_end_to_end_witness :
+    let fin := run (St.new 20 500 1000200 100000 3)
+      [.rcd 1000300 wa 0 (evBucket .pass 3), .tick 1001100, .rcd 1001200 wa 0 (evBucket .pass 2), .tick 1002000]
+    (fin.written.map (·.1)) = [1000000, 1001000] ∧
+    ((find fin.w.files {} 1000000 1009000 wa).2.map fun it => (it.ts, it.pass)) = [(1001000, 2)] ∧
+    ((retained fin.w.files).map fun it => (it.ts, it.pass)) = [(1000000, 3), (1001000, 2)] := by decide
+
+/-! ## non-vacuity: the hypotheses are satisfiable by a history that logs something -/
+
+example : MonoEv 1000 lossHist := by simp [MonoEv, lossHist, Agg.Ev.time]
+example : TickGap (4 * 500 - 1000) 1000
+    [.rcd 1000 wa 0 (evBucket .pass 1), .rcd 2100 wa 0 (evBucket .pass 3), .tick 1999, .tick 2999, .tick 3999] := by
+  simp [TickGap]
+example : ¬ TickGap (4 * 500 - 1000) 1000 lossHist := by simp [TickGap, lossHist]
 
 end Sentinel.AGG
